@@ -245,7 +245,7 @@ void rt_free(void *p, uintptr_t pc)
 
 using namespace rksim;
 
-#ifndef RKSIM_ASAN_LANE
+#ifndef RKSIM_NO_ARENA
 #define RA ((uintptr_t)__builtin_return_address(0))
 
 void *operator new(size_t n)
@@ -293,4 +293,75 @@ void operator delete(void *p, size_t, std::align_val_t) noexcept { rt_free(p, RA
 void operator delete[](void *p, size_t, std::align_val_t) noexcept { rt_free(p, RA); }
 void operator delete(void *p, const std::nothrow_t &) noexcept { rt_free(p, RA); }
 void operator delete[](void *p, const std::nothrow_t &) noexcept { rt_free(p, RA); }
-#endif  // RKSIM_ASAN_LANE
+#endif  // RKSIM_NO_ARENA
+
+#if defined(RKSIM_NO_ARENA) && !defined(RKSIM_ASAN_LANE)
+// The sanitizer-free lane runs on the real glibc allocator. When the code under test has corrupted
+// that heap, the violation still has to be reported: from then on operator new serves the reporting
+// code from a static buffer instead of touching the broken heap.
+namespace rksim {
+volatile int g_emergency_heap = 0;
+}
+static char emergency_buf[4 << 20];
+static size_t emergency_used = 0;
+static void *plain_alloc(size_t n, size_t align)
+{
+  if (rksim::g_emergency_heap) {
+    size_t a = (emergency_used + (align < 16 ? 16 : align) - 1) & ~((align < 16 ? 16 : align) - 1);
+    if (a + n > sizeof emergency_buf)
+      _exit(72);
+    emergency_used = a + n;
+    return emergency_buf + a;
+  }
+  void *p = nullptr;
+  if (align <= 16)
+    p = malloc(n ? n : 1);
+  else if (posix_memalign(&p, align, n ? n : 1) != 0)
+    p = nullptr;
+  return p;
+}
+static void plain_free(void *p)
+{
+  if (!p || rksim::g_emergency_heap || ((char *)p >= emergency_buf && (char *)p < emergency_buf + sizeof emergency_buf))
+    return;
+  free(p);
+}
+void *operator new(size_t n)
+{
+  void *p = plain_alloc(n, 16);
+  if (!p)
+    throw std::bad_alloc();
+  return p;
+}
+void *operator new[](size_t n)
+{
+  void *p = plain_alloc(n, 16);
+  if (!p)
+    throw std::bad_alloc();
+  return p;
+}
+void *operator new(size_t n, const std::nothrow_t &) noexcept { return plain_alloc(n, 16); }
+void *operator new[](size_t n, const std::nothrow_t &) noexcept { return plain_alloc(n, 16); }
+void *operator new(size_t n, std::align_val_t a)
+{
+  void *p = plain_alloc(n, (size_t)a);
+  if (!p)
+    throw std::bad_alloc();
+  return p;
+}
+void *operator new[](size_t n, std::align_val_t a)
+{
+  void *p = plain_alloc(n, (size_t)a);
+  if (!p)
+    throw std::bad_alloc();
+  return p;
+}
+void operator delete(void *p) noexcept { plain_free(p); }
+void operator delete[](void *p) noexcept { plain_free(p); }
+void operator delete(void *p, size_t) noexcept { plain_free(p); }
+void operator delete[](void *p, size_t) noexcept { plain_free(p); }
+void operator delete(void *p, std::align_val_t) noexcept { plain_free(p); }
+void operator delete[](void *p, std::align_val_t) noexcept { plain_free(p); }
+void operator delete(void *p, size_t, std::align_val_t) noexcept { plain_free(p); }
+void operator delete[](void *p, size_t, std::align_val_t) noexcept { plain_free(p); }
+#endif
